@@ -23,10 +23,10 @@ const root = "/verif"
 
 // job is one rapid test (or a group selected by -test.run) of a check.
 type job struct {
-	Run            string // -test.run pattern
-	Quick, Thor    int    // -rapid.checks per shard
+	Run              string // -test.run pattern
+	Quick, Thor      int    // -rapid.checks per shard
 	QShards, TShards int
-	Steps          int // -rapid.steps (0 = default)
+	Steps            int // -rapid.steps (0 = default)
 }
 
 type fuzzJob struct {
